@@ -755,6 +755,79 @@ impl SchedX {
                     finish: Box::new(move || final_check(c3, dir, Some(1), &[])),
                 }
             }
+            // a blocking commit ∥ a session that is being FINISHED (its merkle update is running):
+            // the commit must wait until finish() has returned — the committed state may not
+            // change between begin_session and the return of finish, and the witness must be
+            // that of the session's base
+            "H9" => {
+                let (c, dir) = self.base_ctx(&[0]);
+                let fin = prepared(&c.n, 1);
+                let (c1, c2) = (c.clone(), c.clone());
+                Execution {
+                    threads: vec![
+                        Box::new(move || {
+                            let r = fin.commit(&c1.n);
+                            c1.ob(format!("W1:{}", if r.is_ok() { "won" } else { "rejected" }));
+                            drop(c1);
+                        }),
+                        Box::new(move || {
+                            use bitvec::prelude::*;
+                            let s = c2.n.begin_session(crate::driver::witness_params());
+                            let prev = s.prev_root().into_inner();
+                            c2.ob(format!("S.base:v{}", if prev == root_of(1) { 1 } else { 0 }));
+                            let a = s.read(ka()).unwrap();
+                            sp("S.before-finish");
+                            let mut acts = vec![(ka(), KeyReadWrite::ReadThenWrite(a.clone(), Some(val(2)))), (kb(), KeyReadWrite::Write(Some(val(2))))];
+                            acts.sort_by(|x, y| x.0.cmp(&y.0));
+                            match s.finish(acts) {
+                                Err(e) => c2.err(format!("S: finish failed: {e:#}")),
+                                Ok(mut fin2) => {
+                                    let now = c2.n.root().into_inner();
+                                    if now != prev {
+                                        c2.err("S: the committed root changed between begin_session and the return of finish(): a blocking commit did not wait for a session that was being finished".into());
+                                    }
+                                    match fin2.take_witness() {
+                                        None => c2.err("S: no witness".into()),
+                                        Some(w) => {
+                                            for (i, p) in w.path_proofs.iter().enumerate() {
+                                                if p.inner.verify::<B3>(&p.path.path(), prev).is_err() {
+                                                    c2.err(format!("S: witnessed path {i} does not verify against the session's previous root"));
+                                                }
+                                            }
+                                        }
+                                    }
+                                    let _ = ka().view_bits::<Msb0>();
+                                    sp("S.before-commit");
+                                    let r = fin2.commit(&c2.n);
+                                    c2.ob(format!("W2:{}", if r.is_ok() { "won" } else { "rejected" }));
+                                }
+                            }
+                            drop(c2);
+                        }),
+                    ],
+                    finish: Box::new(move || {
+                        let obs = c.obs.lock().unwrap().clone();
+                        let w1 = obs.iter().any(|o| o == "W1:won");
+                        let w2 = obs.iter().any(|o| o == "W2:won");
+                        // the session began after the other commit: both win, one after the other
+                        if obs.iter().any(|o| o == "S.base:v1") {
+                            if !(w1 && w2) {
+                                return Err(format!("a session begun on the committed v1 was refused: {obs:?}"));
+                            }
+                            return final_check(c, dir, Some(2), &[]);
+                        }
+                        // both prepared on v0: exactly one wins
+                        if w1 == w2 {
+                            let errs = c.errs.lock().unwrap().clone();
+                            if !errs.is_empty() {
+                                return Err(errs.join("; "));
+                            }
+                            return Err(format!("two changesets on one base: {obs:?}"));
+                        }
+                        final_check(c, dir, Some(if w1 { 1 } else { 2 }), &[])
+                    }),
+                }
+            }
             // one thread, rollback enabled, three overlapping sessions: ending the third must not
             // wait for the first two
             "H6r" => {
@@ -1842,8 +1915,8 @@ impl Engine for SchedX {
         let thorough = tier == "thorough";
         let (harnesses, rule): (Vec<&str>, &str) = match prop {
             "C15" => (
-                vec!["H1", "H2", "H3", "H3nb", "H3ov", "H4", "H5", "H6", "H6w", "H6r", "H7", "H8", "H8ov", "H8r"],
-                "schedx: closed harnesses of 2–3 real threads on two colliding keys (same value leaf, same merkle page), values stamped with the writer's version, rollback enabled: H1 reader∥blocking writer; H2 reader∥non-blocking writer (prepared changeset, retried blocking when handed back); H3/H3nb/H3ov two writers with changesets on one base (blocking / non-blocking / overlay) followed by reopen and rollback(1); H4 reader∥rollback; H5 reader∥writer∥writer; H6 one thread with two overlapping sessions∥writer; H6w one thread, warm-up on and one commit worker, two overlapping sessions, the second one finished while the first is alive; H6r one thread, rollback enabled, three overlapping sessions, the third one finished while the first two are alive; H8/H8ov/H8r a changeset or overlay prepared on the current state ∥ rollback(1) [∥ a reader]: the writers serialise — commit then rollback (final = the state before the commit, one further rollback possible) or rollback then commit (the changeset is refused, final = the rolled-back state); H7 two threads proving different keys (present and absent) through ONE shared session on a cold store, with scheduling points at every I/O submission and every wait for a completion of the calling threads (the scheduler lets outstanding reads complete before it decides, so the enabled set does not depend on I/O speed). EVERY schedule of the visible points (API lock acquisitions with parking_lot's writer-preferring FIFO fairness modelled in the scheduler, the read-transaction wait, harness points between session operations) with ≤c preemptions is executed on a fresh store, c = 0,1,2 (thorough 3). Oracle per schedule: terminates (no enabled thread = deadlock); all reads and the proof of one session agree with one committed version and with session.prev_root(); exactly one of two competing changesets wins; final state, root and state after reopen are the winner's; rollback(1) restores the base. One case = one harness × one bound; evaluations = cases, transitions = scheduler steps, states = distinct schedules (trace digests).",
+                vec!["H1", "H2", "H3", "H3nb", "H3ov", "H4", "H5", "H6", "H6w", "H6r", "H7", "H8", "H8ov", "H8r", "H9"],
+                "schedx: closed harnesses of 2–3 real threads on two colliding keys (same value leaf, same merkle page), values stamped with the writer's version, rollback enabled: H1 reader∥blocking writer; H2 reader∥non-blocking writer (prepared changeset, retried blocking when handed back); H3/H3nb/H3ov two writers with changesets on one base (blocking / non-blocking / overlay) followed by reopen and rollback(1); H4 reader∥rollback; H5 reader∥writer∥writer; H6 one thread with two overlapping sessions∥writer; H6w one thread, warm-up on and one commit worker, two overlapping sessions, the second one finished while the first is alive; H6r one thread, rollback enabled, three overlapping sessions, the third one finished while the first two are alive; H8/H8ov/H8r a changeset or overlay prepared on the current state ∥ rollback(1) [∥ a reader]: the writers serialise — commit then rollback (final = the state before the commit, one further rollback possible) or rollback then commit (the changeset is refused, final = the rolled-back state); H9 a prepared changeset in a blocking commit ∥ a witnessed session being finished (point before the merkle join): the committed root may not change between begin_session and the return of finish(), every witnessed path verifies against the session's previous root, exactly one of the two wins; H7 two threads proving different keys (present and absent) through ONE shared session on a cold store, with scheduling points at every I/O submission and every wait for a completion of the calling threads (the scheduler lets outstanding reads complete before it decides, so the enabled set does not depend on I/O speed). EVERY schedule of the visible points (API lock acquisitions with parking_lot's writer-preferring FIFO fairness modelled in the scheduler, the read-transaction wait, harness points between session operations) with ≤c preemptions is executed on a fresh store, c = 0,1,2 (thorough 3). Oracle per schedule: terminates (no enabled thread = deadlock); all reads and the proof of one session agree with one committed version and with session.prev_root(); exactly one of two competing changesets wins; final state, root and state after reopen are the winner's; rollback(1) restores the base. One case = one harness × one bound; evaluations = cases, transitions = scheduler steps, states = distinct schedules (trace digests).",
             ),
             "C20" => (
                 vec!["O1", "O2", "O2x3", "O3", "O4", "L1", "L2", "L3", "L4", "L5", "P1", "P1k"],
